@@ -187,6 +187,9 @@ def make_symbolic(I: Interp, spec, hint, root=None, env=None):
     raise Unsupported(f"input spec {spec!r}")
 
 
+_CONCRETE_ROOT = []      # the outermost object being built by make_concrete (Root() back references)
+
+
 def make_concrete(spec, hint, model):
     """Real Python value for a spec under a counter-model (same naming scheme as make_symbolic)."""
     if isinstance(spec, _Scalar):
@@ -233,8 +236,15 @@ def make_concrete(spec, hint, model):
                 object.__setattr__(obj, lname, null)   # logging is dropped by extraction (A-LOG); replays need the objects
             except Exception:
                 pass
-        for f, s in spec.fields.items():
-            object.__setattr__(obj, f, make_concrete(s, f"{hint}.{f}", model))
+        outermost = not _CONCRETE_ROOT
+        if outermost:
+            _CONCRETE_ROOT.append(obj)
+        try:
+            for f, s in spec.fields.items():
+                object.__setattr__(obj, f, _CONCRETE_ROOT[0] if isinstance(s, Root) else make_concrete(s, f"{hint}.{f}", model))
+        finally:
+            if outermost:
+                _CONCRETE_ROOT.pop()
         return obj
     if isinstance(spec, FixedList):
         items = [make_concrete(s, f"{hint}[{k}]", model) for k, s in enumerate(spec.items)]
